@@ -974,8 +974,11 @@ class PolygonalROI(VertexROIBase):
 
     def center(self):
         # centroid is more robust than mean, but
-        # for linear (1D) "polygons" centroid is not defined.
-        if self.area() == 0:
+        # for linear (1D) "polygons" centroid is not defined; neither is it for
+        # self-intersecting polygons whose signed area cancels. Compare against
+        # rounding error (relative to the extent) rather than for exact zero.
+        extent = np.ptp(self.vx) + np.ptp(self.vy)
+        if self.area() <= 1e-12 * extent ** 2:
             return self.mean()
         else:
             return self.centroid()
